@@ -67,7 +67,7 @@ def check_program(item):
     out = {"idx": idx, "runs": 0, "violations": [], "states": 0, "edges": 0, "preempt": 0, "resumed": 0, "guardrej": 0, "kinds": {}}
     text = gd.render(prog)
     try:
-        sc = dyn.compile_scenario(text)
+        sc = dyn.compile_scenario(text, **({"scenario": prog["main"]} if prog.get("main") else {}))
         scene, _ = sc.generate(maxIterations=5)
     except Exception as e:  # noqa: BLE001
         out["violations"].append((f"compile:{type(e).__name__}", f"valid program of the interrupt fragment does not compile: {e!r}\n{text}", {"idx": idx, "prog": prog, "tier": tier, "kind": "compile"}))
@@ -122,6 +122,7 @@ def check_program(item):
 
 def run(ctx):
     items = [(idx, prog, ctx.tier) for idx, prog in gd.c13_programs(ctx.tier)]
+    items += [(idx, prog, ctx.tier) for idx, prog in gd.c13_modular_programs(ctx.tier, start_index=len(items))]
     items = ctx.rotate(items)
     tot = {"runs": 0, "states": 0, "edges": 0, "preempt": 0, "resumed": 0, "guardrej": 0}
     kinds = {}
@@ -166,7 +167,7 @@ def replay(ctx, case):
                 ctx.violation(sig, desc, c)
         return
     text = gd.render(prog)
-    sc = dyn.compile_scenario(text)
+    sc = dyn.compile_scenario(text, **({"scenario": prog["main"]} if prog.get("main") else {}))
     scene, _ = sc.generate(maxIterations=5)
     var = {"timestep": 1, "maxSteps": MAXSTEPS}
     p = dict(prog, **var)
